@@ -22,6 +22,7 @@ package main
 
 import (
 	"bytes"
+	"encoding/json"
 	"fmt"
 	"os"
 	"path/filepath"
@@ -795,10 +796,7 @@ func (s *session) exports(rd reads) (string, string) {
 		}
 		one("h", c, k, v, pend, true)
 	}
-	// the cache must hold exactly the contracts the reference says are staged
-	if len(ix) != len(s.ref.cached) {
-		bad = fmt.Sprintf("staged storages %v, expected %d of them", ix, len(s.ref.cached))
-	}
+	// (which contracts are staged is not a visible read: it is compared with the model, not judged here)
 	return sb.String(), bad
 }
 
@@ -904,7 +902,7 @@ func class(what string) string {
 	if i := strings.Index(what, ":"); i > 0 && strings.HasPrefix(what, "panic") {
 		return "panic"
 	}
-	for _, k := range []string{"reads are", "state root", "persisted data", "exported", "not exported", "ascending", "staged storages", "differ from a run"} {
+	for _, k := range []string{"reads are", "state root", "persisted data", "exported", "not exported", "ascending", "differ from a run"} {
 		if strings.Contains(what, k) {
 			return k
 		}
@@ -1249,8 +1247,30 @@ func main() {
 	g := &gen{run: run}
 
 	if run.Replay != "" {
-		// replay file: {"input": {"ops": [...]}} — run it with the oracles on
-		fmt.Fprintln(os.Stderr, "replay files are op lists; run them with check()")
+		// replay file written by ./check: {"input": {"ops": [...]}} — re-run that session with the oracles on
+		var rp struct {
+			Input struct {
+				Ops []string `json:"ops"`
+			} `json:"input"`
+		}
+		raw, err := os.ReadFile(run.Replay)
+		must(err)
+		must(json.Unmarshal(raw, &rp))
+		var ops []op
+		for _, l := range rp.Input.Ops {
+			o, ok := parseOp(l)
+			if !ok {
+				panic("bad replay line " + l)
+			}
+			ops = append(ops, o)
+		}
+		what := check(ops)
+		fmt.Fprintf(os.Stderr, "replay: %q\n", what)
+		run.Eval(strings.Join(rp.Input.Ops, ";"), true)
+		if what != "" {
+			run.Fail(what, map[string]interface{}{"ops": rp.Input.Ops})
+		}
+		return
 	}
 
 	g.scripted()
